@@ -188,25 +188,30 @@ Definition row_end_ok (r : list cell) : bool :=
 Fixpoint distinct (l : list bytes) : bool :=
   match l with [] => true | x :: l' => negb (existsb (beq x) l') && distinct l' end.
 Definition col_ok (c : column) : bool :=
-  ident (c_name c) && match c_type c with TUnsup _ | TCharU => false | TChar w => 0 <? w | _ => true end.
+  ident (c_name c) && negb (contains KW_TYPEDEF_R (c_name c))
+  && match c_arr c with Some l => 0 <? l | None => true end
+  && match c_type c with TUnsup _ | TCharU => false | TChar w => 0 <? w | _ => true end.
 Definition table_ok (es : list enumdecl) (t : table) : bool :=
   ident (t_name t) && match t_cols t with [] => false | _ => true end
   && forallb col_ok (t_cols t) && distinct (map c_name (t_cols t))
   && forallb (fun r => row_ok es (t_cols t) r && row_end_ok r) (t_rows t).
 Definition enum_ok (e : enumdecl) : bool :=
   ident (e_col e) && ident (e_tname e) && match e_labels e with [] => false | _ => true end
-  && forallb ident (e_labels e).
-(* header value: printable, no '#', equal to its own strip(), no final backslash, no empty double brace,
+  && forallb (fun l => ident l && negb (contains KW_TYPEDEF_R l)) (e_labels e).
+(* header value: printable, no '#', no blank at either end (= its own strip()), no final backslash, no brace,
    no typedef keyword *)
 Definition hdr_ok (v : bytes) : bool :=
-  forallb (fun c => printable c && negb (c =? HASH)) v && beq (strip v) v && negb (ends_bsl v)
+  forallb (fun c => printable c && negb (c =? HASH)) v
+  && match v with c :: _ => negb (is_ws c) | [] => true end && match rev v with c :: _ => negb (is_ws c) | [] => true end
+  && negb (ends_bsl v)
   && negb (mem LBRACE v) && negb (contains KW_TYPEDEF_R v).
 Definition comment_ok (c : bytes) : bool :=
-  forallb printable c && negb (ends_bsl c) && negb (contains KW_TYPEDEF_R c).
+  forallb printable c && negb (mem BSL c) && negb (contains KW_TYPEDEF_R c).
 Definition doc_ok (d : doc) : bool :=
   let names := map (fun t => upper (t_name t)) (d_tables d) in
   forallb comment_ok (d_comments d) && match d_comments d with [] => false | _ => true end
-  && forallb (fun kv => ident (fst kv) && hdr_ok (snd kv) && negb (existsb (beq (upper (fst kv))) names)) (d_pairs d)
+  && forallb (fun kv => ident (fst kv) && negb (contains KW_TYPEDEF_R (fst kv)) && hdr_ok (snd kv)
+                        && negb (existsb (beq (upper (fst kv))) names)) (d_pairs d)
   && distinct (map fst (d_pairs d))
   && forallb enum_ok (d_enums d) && distinct (map e_col (d_enums d)) && distinct (map (fun e => upper (e_tname e)) (d_enums d))
   && forallb (table_ok (d_enums d)) (d_tables d) && distinct names.
